@@ -63,7 +63,7 @@ StringDictionaryPFC::StringDictionaryPFC(IteratorDictString *it,
   uint lenCurrent = 0, lenPrev = 0;
 
   // Variables for strings management
-  size_t reservedStrings = MEMALLOC * bucketsize;
+  size_t reservedStrings = (size_t)MEMALLOC * bucketsize;
   textStrings = new uchar[reservedStrings];
   std::vector<size_t> xblStrings;
 
